@@ -185,9 +185,16 @@ func (fs *realFS) ReadDirectory(dir string) (entries DirEntries, canonicalError 
 			state = stateDirUnreadable
 		}
 		entries.accessedEntries = &accessedEntries{wasPresent: make(map[string]bool)}
-		fs.watchData[dir] = privateWatchData{
-			accessedEntries: entries.accessedEntries,
-			state:           state,
+		if data, ok := fs.watchData[dir]; ok && canonicalError != nil && (data.state == stateFileHasModKey ||
+			data.state == stateFileNeedModKey || data.state == stateFileUnusableModKey) {
+			// Note: If "ReadFile" is called before "ReadDirectory" with this same
+			// path, then this path is a file that has already been read. In that
+			// case we want to keep watching the contents of the file.
+		} else {
+			fs.watchData[dir] = privateWatchData{
+				accessedEntries: entries.accessedEntries,
+				state:           state,
+			}
 		}
 	}
 
